@@ -22,6 +22,8 @@ Definition seed_flags : N := 0.
 Definition log_flags : N := 1.
 Definition sock_flags : N := 0.
 Definition pid_flags : N := 0.
+(* does _random_read_seed open the seed with O_NONBLOCK (a FIFO in its place cannot block the start) *)
+Definition seed_open_nonblock : bool := false.
 (* recipe of each created file: (requested mode, keep, or, final chmod); the umask in force at the
    creating call is (inherited land keep) lor or; fg = munged -F, bg = daemon mode.
    Socket: requested = mode of a fresh AF_UNIX socket inode before the umask is applied by bind(2). *)
